@@ -82,6 +82,28 @@ func build(r *rand.Rand, n int) (*scenario, error) {
 		keep = append(keep, gen.Function(r, name, gen.SigII, 3+r.Intn(6)))
 		sc.plan[name] = "added"
 	}
+	// twins: functions of one shape that differ only in what the default policy abstracts
+	// (parameter names, large constants, strings) and receive the same edit. Their old
+	// fingerprints are equal and their new fingerprints are equal, but each pair's reported
+	// operations must be its own instructions.
+	op := []string{"+", "*", "^"}[r.Intn(3)]
+	for k, pn := range [][2]string{{"width", "factor"}, {"height", "ratio"}, {"depth", "scale"}}[:2+r.Intn(2)] {
+		name := fmt.Sprintf("Tw%d", k)
+		twin := func(o string) gen.Func {
+			return gen.Func{Name: name, Sig: gen.SigII, Exec: true, Tags: []string{"twin"}, Text: fmt.Sprintf(`func %s(%s int, %s int) (res int) {
+	t := %s %s %s
+	res = t + %d
+	if res > %d {
+		res += len(hs1(%q))
+	}
+	return res
+}
+`, name, pn[0], pn[1], pn[0], o, pn[1], 1000*(k+1), 5000+37*k, strings.Repeat("s", k+2))}
+		}
+		base.Funcs = append(base.Funcs, twin("-"))
+		keep = append(keep, twin(op))
+		sc.plan[name] = "edited"
+	}
 	nf.Funcs = keep
 	sc.new = nf
 	return sc, nil
